@@ -1,12 +1,12 @@
-(* Obligation C10/range_invariant_history.  Statement as printed by Coq from Inferno.C10.WorldProofs; proof by reference.
+(* Obligation C10/range_invariant_history.  Statement as printed by Coq from Inferno.C10.RangeProofs; proof by reference.
    This file contains nothing else, so the statement cannot be weakened quietly. *)
 From Coq Require Import List ZArith Bool Arith Reals Lra Lia Permutation.
-From Inferno Require Import Base.Num Base.NumR Gen.Bounding C10.Updater C10.KernelProofs C10.AccProofs C10.OrderProofs C10.WorldProofs C10.UpdateProofs C10.InterleaveProofs.
+From Inferno Require Import Base.Num Base.NumR Gen.Bounding C10.Updater C10.KernelAlgebra C10.KernelRange C10.AccProofs C10.OrderProofs C10.WorldProofs C10.RangeProofs.
 Import ListNotations.
 Open Scope R_scope.
 Theorem range_invariant_history : forall (target : Z) (len : nat) (mx mn cap : R) (ops : list opR) (w : worldR),
   holds (Irange target len mx mn cap) w ->
   Forall (good_op target len mx mn cap) ops ->
   holds (Irange target len mx mn cap) (run RN w ops).
-Proof. exact (@Inferno.C10.WorldProofs.range_invariant_history). Qed.
+Proof. exact (@Inferno.C10.RangeProofs.range_invariant_history). Qed.
 Print Assumptions range_invariant_history.
